@@ -11,7 +11,7 @@ import z3
 
 from . import loader
 from .loader import class_table, FuncInfo, funcinfo_of, is_tealer_class, is_tealer_function
-from .state import State, Obligation, ALLOC0
+from .state import State, Obligation, ALLOC0, initial_heap_array
 from .typing_hints import ty_from_ast, ty_of_class, dataclass_field_types, ty_from_runtime
 from .values import (T, Ty, V, VAbs, VBool, VClass, VDict, VEnum, VFunc, VInt, VList, VNone, VPy, VRec, VRef, VSet,
                      VStr, VTuple, VUnion, Unsupported, fresh_name, sort_of, to_term, from_term, veq, abs_sort,
@@ -585,6 +585,15 @@ class ExecBase:
             st = st.assume(term > 0, term < ALLOC0, z3.Or([g for g, _ in v.alts]))
         if k in ("list", "dict"):
             st = st.assume(term < st.alloc_ptr())   # a stored container exists already (never a not-yet-allocated address)
+            # the entry heap is closed: a container stored in an object that exists at entry exists at entry too
+            h0 = initial_heap_array(key, z3.IntSort(), sort_of(ty))
+            tag = ("closed", key)
+            if tag not in st.touched:
+                st = st.copy()
+                st.touched = st.touched + (tag,)
+                r_ = z3.Int("r!closed")
+                st.pc.append(z3.ForAll([r_], z3.Implies(z3.And(r_ > 0, r_ < ALLOC0), z3.Select(h0, r_) < ALLOC0),
+                                       patterns=[z3.Select(h0, r_)]))
         if k == "list":
             st = st.assume(z3.Select(self._len_arr(st), term) >= 0)   # lengths are non-negative
         return v, st
